@@ -127,7 +127,7 @@ func TestC11_S1Refresh(t *testing.T) {
 			"Refresh/BulkRefresh on live, absent and expired keys, SetRefreshableAfter; oracle: fresh reads invoke no loader, a due read returns the old value and submits exactly one reload with the old value, " +
 			"success replaces and recomputes the refresh time, failure leaves value and expiry, not-found removes, each Refresh call delivers exactly one result, nil channel without refresh; " +
 			"non-trivial = >= 1 due read and >= 1 reload that is not a plain success",
-		Profile: &vh.Profile{Name: "c11", NeedRefresh: true, TinyRefresh: true, LongExpiry: true, Executors: both(), MinLen: 1, MaxLen: 80, MaxKeys: 4,
+		Profile: &vh.Profile{Name: "c11", NeedRefresh: true, TinyRefresh: true, LongExpiry: true, ExtremeDur: true, Executors: both(), MinLen: 1, MaxLen: 80, MaxKeys: 4,
 			Ops: with(vh.BaseOps(), "get", 24, "bulkget", 8, "refresh", 8, "bulkrefresh", 5, "advanceto", 14, "advance", 8, "setrefreshableafter", 5, "runtasks", 10)},
 		Facets:       vh.FRefresh | vh.FContents | vh.FDeadline | vh.FPanic,
 		FinalQuiesce: true,
@@ -439,7 +439,7 @@ func TestC06_S1Burst(t *testing.T) { s1Main(t, burstSpec("C06", "S1Burst", vh.FE
 // C16, cache-level clause ("no cache write is forgotten by the eviction and expiration policies"): the burst
 // scripts make writers hit a full write buffer, so the refused-offer fallback carries the event itself.
 func TestC16_S1Burst(t *testing.T) {
-	s1Main(t, burstSpec("C16", "S1Burst", vh.FBook|vh.FEvents|vh.FBound, false))
+	s1Main(t, burstSpec("C16", "S1Burst", vh.FBook|vh.FEvents|vh.FBound|vh.FOrder, false))
 }
 
 // ---- C17, cache-level clause: dropping reads never changes what an operation returns ---------------------
